@@ -40,3 +40,26 @@ Definition clamp_maxlen (m : Z) : Z :=
 
 (* the last -M wins; 255 without one *)
 Definition startup_maxlen (ms : list Z) : Z := last (map clamp_maxlen ms) 255%Z.
+
+(* ---- the remaining numeric client options, in command-line order (-L -I -m -r) -------------------------- *)
+
+Inductive copt := OL (n : Z) | OI (n : Z) | Om (n : Z) | Or.
+
+Record csettings := mkcs { s_lazy : Z; s_timeout : Z; s_raw : bool; s_autofrag : bool; s_fragsize : Z }.
+
+(* main(): lazymode = 1, selecttimeout = 4, raw_mode = 1, autodetect_frag_size = 1, max_downstream_frag_size = 3072 *)
+Definition cs0 : csettings := mkcs 1 4 true true 3072.
+
+Definition cstep (s : csettings) (o : copt) : csettings :=
+  match o with
+  | OL n => let l := if (1 <? n)%Z then 1%Z else if (n <? 0)%Z then 0%Z else n in
+            mkcs l (if (l =? 0)%Z then 1%Z else s_timeout s) (s_raw s) (s_autofrag s) (s_fragsize s)
+  | OI n => mkcs (s_lazy s) (if (n <? 1)%Z then 1%Z else n) (s_raw s) (s_autofrag s) (s_fragsize s)
+  | Om n => mkcs (s_lazy s) (s_timeout s) (s_raw s) false n
+  | Or => mkcs (s_lazy s) (s_timeout s) false (s_autofrag s) (s_fragsize s)
+  end.
+
+Definition csettings_of (opts : list copt) : csettings := fold_left cstep opts cs0.
+
+(* main() refuses a fragment size outside 1..65535 before anything is sent *)
+Definition fragsize_accepted (s : csettings) : bool := ((1 <=? s_fragsize s) && (s_fragsize s <=? 65535))%Z.
